@@ -290,6 +290,10 @@ func init() {
 						continue // variant 0 does not depend on j
 					}
 					jobsB = append(jobsB, jobB{fmt.Sprintf("split_%d_%d_%d", i, j, variant), c09Setup(intfs), []string{"Maa"}, []int{i}})
+					// the method (with its notations) declared in a PLAIN interface that the converter interface embeds
+					plain := "type basics interface {\n" + c09Method("Maa", c09Alphabet[i].notes, c09Alphabet[i].sig) + "}\n"
+					embI := c09Intf("Convergen", nil, []string{"\tbasics\n", c09Method("Mbb", c09Alphabet[j].notes, c09Alphabet[j].sig)})
+					jobsB = append(jobsB, jobB{fmt.Sprintf("embedded_%d_%d", i, j), c09Setup([]string{plain, embI}), []string{"Maa", "Mbb"}, []int{i, j}})
 				}
 			}
 		}
